@@ -464,6 +464,15 @@ Variable repl : text.
 Lemma url_from_skip a : forall b, url_from_r repl (a ++ b) (List.length a) = url_from_r repl b 0.
 Proof. induction a as [|c a IH]; intros b; [reflexivity|]. cbn [app List.length url_from_r]. apply IH. Qed.
 
+Lemma find_userinfo_app u post : existsb (fun c => (c =? 64) || ui_stop c) u = false ->
+  find_userinfo (u ++ 64 :: post) = Some (List.length u).
+Proof.
+  induction u as [|c u IH]; intros H.
+  - reflexivity.
+  - cbn [existsb] in H. apply orb_false_iff in H as [H1 H2]. apply orb_false_iff in H1 as [Hq Hn].
+    cbn [app find_userinfo List.length]. rewrite Hq, Hn. now rewrite (IH H2).
+Qed.
+
 Lemma find_close_app q u post : existsb (fun c => (c =? q) || (c =? 10)) u = false ->
   find_close q false (u ++ q :: post) = Some (List.length u).
 Proof.
@@ -485,7 +494,7 @@ Qed.
 Lemma url_from_unfold c r :
   url_from_r repl (c :: r) 0 =
   if is_prefix [58; 47; 47] (c :: r) then
-    match find_close 64 false (skipn 2 r) with
+    match find_userinfo (skipn 2 r) with
     | Some n => repl ++ url_from_r repl r (3 + n)
     | None => c :: url_from_r repl r 0
     end
@@ -506,12 +515,12 @@ Qed.
 
 Lemma url_hides_r pre u post :
   contains [58; 47; 47] pre = false ->
-  existsb (fun c => (c =? 64) || (c =? 10)) u = false ->
+  existsb (fun c => (c =? 64) || ui_stop c) u = false ->
   url_step_r repl (pre ++ [58; 47; 47] ++ u ++ [64] ++ post) = pre ++ repl ++ url_step_r repl post.
 Proof.
   intros Hp Hu. unfold url_step_r. cbn [app]. rewrite (url_pre _ _ Hp). f_equal.
   rewrite url_from_unfold. change (is_prefix [58; 47; 47] (58 :: 47 :: 47 :: u ++ 64 :: post)) with true.
-  cbn [skipn]. rewrite (find_close_app 64 u post Hu). f_equal.
+  cbn [skipn]. rewrite (find_userinfo_app u post Hu). f_equal.
   change (47 :: 47 :: u ++ 64 :: post) with ((47 :: 47 :: u) ++ 64 :: post).
   replace ((47 :: 47 :: u) ++ 64 :: post) with ((47 :: 47 :: u ++ [64]) ++ post)
     by (cbn [app]; now rewrite <- app_assoc).
@@ -524,13 +533,13 @@ End Url.
 
 Lemma url_hides pre u post :
   contains [58; 47; 47] pre = false ->
-  existsb (fun c => (c =? 64) || (c =? 10)) u = false ->
+  existsb (fun c => (c =? 64) || ui_stop c) u = false ->
   url_step (pre ++ [58; 47; 47] ++ u ++ [64] ++ post) = pre ++ C20_url_replacement ++ url_step post.
 Proof. exact (url_hides_r C20_url_replacement pre u post). Qed.
 
 Lemma gcl_url_hides pre u post :
   contains [58; 47; 47] pre = false ->
-  existsb (fun c => (c =? 64) || (c =? 10)) u = false ->
+  existsb (fun c => (c =? 64) || ui_stop c) u = false ->
   gcl_url_step (pre ++ [58; 47; 47] ++ u ++ [64] ++ post) = pre ++ C20_gcl_url_replacement ++ gcl_url_step post.
 Proof. exact (url_hides_r C20_gcl_url_replacement pre u post). Qed.
 
@@ -875,7 +884,7 @@ Lemma gcl_text_sanitized :
      gcl_text_event digest (Some o) t = GDict (clean_record_model digest false o)) /\
   (forall (digest : text -> text) (pre userinfo post : text),
      contains [58; 47; 47] pre = false ->
-     existsb (fun c => (c =? 64) || (c =? 10)) userinfo = false ->
+     existsb (fun c => (c =? 64) || ui_stop c) userinfo = false ->
      gcl_text_event digest None (pre ++ [58; 47; 47] ++ userinfo ++ [64] ++ post) =
      GText (pre ++ C20_gcl_url_replacement ++ gcl_url_step post)).
 Proof.
@@ -886,10 +895,27 @@ Qed.
 (* a URL text warning reported by GoogleLogger: the report carries the stripped text (a375704) *)
 Lemma gcl_report_url_text n pre u post :
   contains [58; 47; 47] pre = false ->
-  existsb (fun c => (c =? 64) || (c =? 10)) u = false ->
+  existsb (fun c => (c =? 64) || ui_stop c) u = false ->
   report_obj true (WText (pre ++ [58; 47; 47] ++ u ++ [64] ++ post) None) n =
   [(T "message", JStr (T "The following message was suppressed " ++ dec_of_nat n ++ T " time(s)"));
    (T "suppressed", JStr (pre ++ C20_gcl_url_replacement ++ gcl_url_step post))].
 Proof.
   intros Hp Hu. unfold report_obj, wvalue. now rewrite (gcl_url_hides pre u post Hp Hu).
+Qed.
+
+(* round 6: a deep copy has the value of the original *)
+Lemma unfold_leaf f h j : unfold f h (HLeaf j) = j.
+Proof. destruct f; reflexivity. Qed.
+
+Lemma deep_copy_value h a c g : nth_error h a = Some c ->
+  heap_step h (OCopy a true) = h ++ [own_cell (S (List.length h)) h c] /\
+  unfold (S g) (heap_step h (OCopy a true)) (HRef (List.length h)) = unfold (S (S (List.length h))) h (HRef a).
+Proof.
+  intros E. assert (H : heap_step h (OCopy a true) = h ++ [own_cell (S (List.length h)) h c]).
+  { cbn [heap_step]. now rewrite E. }
+  split; [exact H|]. rewrite H. cbn [unfold]. rewrite nth_error_app2 by apply le_n.
+  rewrite PeanoNat.Nat.sub_diag. cbn [nth_error]. rewrite E.
+  destruct c as [kvs|l]; cbn [own_cell]; f_equal; rewrite map_map; apply map_ext.
+  - intros [k v]. cbn [fst snd]. now rewrite unfold_leaf.
+  - intros v. now rewrite unfold_leaf.
 Qed.
